@@ -7,7 +7,7 @@ Calls are resolved through the spec's maps (regex on a textual key -> C stub / t
 """
 import re
 
-from astload import ExtractionError
+from astload import ExtractionError, walk as astload_walk
 
 
 class Unsupported(ExtractionError):
@@ -79,9 +79,11 @@ def string_literal_of(n):
 
 class Printer:
     def __init__(self, cname, types=(), calls=(), members=(), hooks=(), self_struct=None, aggregates=(),
-                 stmt_hooks=(), uf_float=True):
+                 stmt_hooks=(), uf_float=True, opaque=()):
         self.cname = cname
         self.uf_float = uf_float
+        self.opaque = list(opaque)      # regexes: class types erased to `struct nv_opaque` (numerics the contract does not track)
+        self.erased = []                # evidence: erased statements / auto-havocked expressions
         self.types = list(types)        # (regex on cv-stripped desugared type, C type)
         self.calls = list(calls)        # (regex on 'name|fntype|argtype0', mapping)
         self.members = list(members)    # (regex on 'method|objtype|"literal"', mapping)
@@ -107,6 +109,9 @@ class Printer:
         for rx, c in self.types:
             if re.search(rx, q):
                 return c + ptr
+        for rx in self.opaque:
+            if re.search(rx, q):
+                return 'struct nv_opaque' + ptr
         if q in SCALARS:
             return SCALARS[q] + ptr
         raise Unsupported(f'type {q!r} not modelled (target {self.cname})')
@@ -220,6 +225,71 @@ class Printer:
             return self.addr(u)
         return self.expr(u)
 
+    # ------------------------------------------------------------------ opaque (erased) numerics
+    def is_opaque(self, t):
+        if not self.opaque or t is None:
+            return False
+        for q in (t.get('qualType'), t.get('desugaredQualType')):
+            if q is None:
+                continue
+            q = strip_cv(q)
+            while q.endswith('&') or q.endswith('*'):
+                q = strip_cv(q[:-1])
+            for rx, _ in self.types:
+                if re.search(rx, q):
+                    return False
+            for rx in self.opaque:
+                if re.search(rx, q):
+                    return True
+        return False
+
+    def is_modelled_struct(self, t):
+        try:
+            c = self.ctype(t)
+        except Unsupported:
+            return False
+        return c.startswith('struct ') and not c.startswith('struct nv_opaque')
+
+    def check_pure(self, n, what):
+        """an erased expression may not have side effects on modelled (non-opaque) objects"""
+        for x in astload_walk(n):
+            k = x.get('kind')
+            if k == 'LambdaExpr':
+                raise Unsupported(f'lambda inside an erased expression ({what})')
+            if k == 'UnaryOperator' and x.get('opcode') in ('++', '--') and not self.is_opaque(x['inner'][0].get('type')):
+                raise Unsupported(f'side effect (++/--) inside an erased expression ({what})')
+            if (k == 'BinaryOperator' and x.get('opcode') == '=') or k == 'CompoundAssignOperator':
+                raise Unsupported(f'assignment to a modelled object inside an erased expression ({what})')
+            if k == 'CXXMemberCallExpr':
+                me = x['inner'][0]
+                if me.get('kind') == 'MemberExpr' and me.get('inner'):
+                    obj = me['inner'][0]
+                    ot = obj.get('type', {})
+                    q = ot.get('qualType', '')
+                    if self.is_modelled_struct(ot) and not re.search(r'\bconst\b', q):
+                        raise Unsupported(f'non-const member call {me.get("name")} on modelled object inside an erased expression ({what})')
+            if k in ('CallExpr', 'CXXOperatorCallExpr'):
+                for a in x['inner'][1:]:
+                    at = a.get('type', {})
+                    if a.get('valueCategory') == 'lvalue' and self.is_modelled_struct(at) and not re.search(r'\bconst\b', at.get('qualType', '')):
+                        raise Unsupported(f'modelled object passed by possibly mutable reference inside an erased expression ({what})')
+
+    def havoc_value(self, n, why):
+        """the value of an expression computed from erased numerics: nondeterministic (sound over-approximation)"""
+        self.check_pure(n, why)
+        line = n.get('range', {}).get('begin', {}).get('line', '?')
+        self.erased.append(f'line {line}: {why}')
+        self.note('auto-havoc: ' + why.split(':')[0])
+        if self.is_opaque(n.get('type')):
+            return 'nv_opaque_value()'
+        c = self.ctype(n['type'])
+        if c == 'void':
+            return '((void)0)'
+        return self.nondet(c)
+
+    def any_opaque_operand(self, nodes):
+        return any(self.is_opaque(a.get('type')) for a in nodes)
+
     def expr(self, n):
         for h in self.hooks:
             r = h(self, n)
@@ -227,6 +297,19 @@ class Printer:
                 return r
         k = n.get('kind')
         inner = n.get('inner', [])
+        if self.opaque and self.is_opaque(n.get('type')) and k not in ('DeclRefExpr', 'MemberExpr', 'ParenExpr') \
+                and k not in TRANSPARENT and k not in CAST_KINDS:
+            mapped = None
+            if k == 'CXXMemberCallExpr' and inner and inner[0].get('kind') == 'MemberExpr':
+                me = inner[0]
+                mapped = self.lookup(self.members, f'{me["name"]}|{strip_cv(qual(me["inner"][0]["type"]))}')
+            elif k in ('CallExpr', 'CXXOperatorCallExpr'):
+                rd = unwrap(inner[0]).get('referencedDecl')
+                if rd is not None:
+                    a0 = strip_cv(qual(inner[1]['type'])) if len(inner) > 1 else ''
+                    mapped = self.lookup(self.calls, f'{rd["name"]}|{rd["type"]["qualType"]}|{a0}')
+            if mapped is None:
+                return self.havoc_value(n, f'erased {k} of opaque type')
         if k in CAST_KINDS:
             ck = n.get('castKind')
             if ck in PASS_CASTS:
@@ -342,6 +425,8 @@ class Printer:
         key = f'{name}|{objt}' + (f'|"{lit}"' if lit is not None else '')
         m = self.lookup(self.members, key)
         if m is None:
+            if self.is_opaque(obj.get('type')) or self.any_opaque_operand(inner[1:]):
+                return self.havoc_value(n, f'member call {name} on erased numerics')
             raise Unsupported(f'member call not mapped: {key}')
         if me.get('isArrow'):
             selfexpr = self.expr(obj)
@@ -360,6 +445,8 @@ class Printer:
         key = f'{rd["name"]}|{rd["type"]["qualType"]}|{a0}' + (f'|"{lit}"' if lit is not None else '')
         m = self.lookup(self.calls, key)
         if m is None:
+            if self.any_opaque_operand(inner[1:]):
+                return self.havoc_value(n, f'call {rd["name"]} on erased numerics')
             raise Unsupported(f'call not mapped: {key}')
         return self.apply(m, inner[1:], node=n, key=key)
 
@@ -415,7 +502,17 @@ class Printer:
             raise Unsupported('declaration kind ' + v['kind'])
         init = [x for x in v.get('inner', []) if x.get('kind') not in ('FullComment',)]
         ty = v['type'].get('qualType', '').rstrip()
+        if init and unwrap(init[0]).get('kind') == 'LambdaExpr':
+            self.note(f'lambda variable {v["name"]} (extracted separately / passed to a stub)')
+            return ''
         c = self.ctype(v['type'])
+        if c == 'struct nv_opaque' and not ty.endswith('&'):
+            if init:
+                u = unwrap(init[0])
+                if u.get('kind') not in ('DeclRefExpr', 'MemberExpr'):
+                    self.check_pure(init[0], f'initialiser of erased variable {v["name"]}')
+            self.erased.append(f'line {v.get("loc", {}).get("line", "?")}: erased variable {v["name"]} (opaque numerics)')
+            return f'{p}{c} {v["name"]};\n'
         if ty.endswith('&'):
             if not init:
                 raise Unsupported('reference without initialiser')
@@ -518,6 +615,8 @@ class Printer:
             raise Unsupported(f'statement kind {k} (target {self.cname})')
         # expression statement
         e = self.expr(n)
+        if e in ('nv_opaque_value()',) or re.fullmatch(r'nv_nondet_\w+\(\)', e):
+            e = '((void)0)'
         if e == '((void)0)':
             self.dropped.append(n.get('range', {}).get('begin', {}).get('line', '?'))
             return self.after(p)
